@@ -1,0 +1,16 @@
+//go:build !verif
+
+// Package verifhook provides tracing hooks for the verification machinery.
+//
+// Without the `verif` build tag every function in this package is an empty,
+// inlinable no-op.
+package verifhook
+
+// Enabled reports whether the hooks are compiled in.
+const Enabled = false
+
+// Emit records one event (no-op without the verif build tag).
+func Emit(ev string, kv ...interface{}) {}
+
+// Gate marks a scheduling point (no-op without the verif build tag).
+func Gate(point string, kv ...interface{}) {}
